@@ -9,8 +9,8 @@
    witness that is replayed against the implementation (findings F-14b, F-14c, F-14e, F-14r); the witnesses of repaired
    findings (F-14d, F-14k, F-14n, F-14s) stay as regression statements. *)
 From Coq Require Import String List Bool.
-From PVBld Require Import Generated.Keywords Generated.DeriveTables Generated.NameSites Names Paths BoxCycle Derive Effective
-                          Proofs.NamesP Proofs.PathsP Proofs.BoxCycleP Proofs.DeriveP Proofs.EffectiveP.
+From PVBld Require Import Generated.Keywords Generated.DeriveTables Generated.NameSites Names Paths BoxCycle Derive Effective Pipeline
+                          Proofs.NamesP Proofs.PathsP Proofs.BoxCycleP Proofs.DeriveP Proofs.EffectiveP Proofs.SplitNamesP.
 Import ListNotations.
 Open Scope string_scope.
 
@@ -220,3 +220,21 @@ Theorem C14_effective_name_sites :
     s_tag x = Some t -> rust_name conv cc scope x = t /\ emitted conv cc scope x = display t.
 Proof. exact (conj name_sites_as_modelled rust_name_is_tag). Qed.
 Print Assumptions C14_effective_name_sites.
+
+(* ---- split mode: distinct items of a module get distinct files ------------------------------------------------------------------------
+   whatever the kinds and names of the items of a module group (case-colliding names, names that literally look like the suffixed
+   forms X_2, x_3, X_2_2, ...): the file names write_split_mod creates are pairwise distinct IGNORING CASE, so no item's file is
+   overwritten by another's and mod.rs includes every file once.  (generate_unique_name always finds a free candidate: among
+   |taken| + 2 candidates whose lower-case forms are pairwise distinct one is not taken.) *)
+Theorem C14_split_names_injective :
+  forall (item : Type) (render kind_prefix item_name : item -> string) its,
+    NoDup (map lower (map fst (fst (split_items item render kind_prefix item_name [] its)))).
+Proof. exact split_file_names_injective. Qed.
+Print Assumptions C14_split_names_injective.
+
+(* recording the REQUESTED name instead of the one returned (seeded change C14e): ab, Ab, Ab_2 -> Ab and Ab_2 share message_Ab_2.rs *)
+Theorem C14_split_names_requested_refuted :
+  assigned_requested [] ["message_ab"; "message_Ab"; "message_Ab_2"] = ["message_ab"; "message_Ab_2"; "message_Ab_2"] /\
+  assigned [] ["message_ab"; "message_Ab"; "message_Ab_2"] = ["message_ab"; "message_Ab_2"; "message_Ab_2_2"].
+Proof. exact split_names_requested_refuted. Qed.
+Print Assumptions C14_split_names_requested_refuted.
